@@ -501,7 +501,8 @@ def run(rep, tier, seed):
             nops = (16 if big else 45) if quick else (40 if big else 70)
             b = alloc_heavy_body(rng, clsize(fmt), (4 if quick else 6) if big else 10) if rnd % 2 else body(rng, clsize(fmt), nops)
             st, ln = regions[label]
-            s = ["dev %d 0" % size, "wlog 0", fmt, "pages", "wlog 1", "mount 1 0 lossy"] + b + ["drop_all", "unmount", "dump %d %d" % (st, ln)]
+            # every other round the device is not blank (0xD1 everywhere): whatever format does not write stays garbage
+            s = ["dev %d %d" % (size, 209 if rnd % 2 else 0), "wlog 0", fmt, "pages", "wlog 1", "mount 1 0 lossy"] + b + ["drop_all", "unmount", "dump %d %d" % (st, ln)]
             scripts.append((label, s, False))
     for rnd in range(nB):
         for label, size, pokes, cl in crafted:
